@@ -29,8 +29,8 @@ ANCHOR_FILES = ["src/ropt/ensemble_evaluator/_ensemble_evaluator.py", "src/ropt/
 RULE = ("case = one configuration; non-trivial if the run made at least one gradient (perturbation) request or is a population run; distinct key = case index; "
         "monitor_counters: traces compared, evaluator calls hashed")
 ASSUMPTIONS = ["differential_evolution is only required to be reproducible when given an explicit 'seed' option (as the statement says)"]
-REQUIRED = {"quick": {"trace_pairs_compared": 295, "evaluator_calls_hashed": 2515, "foreign_runs_interleaved": 144, "seed_sensitivity_checked": 30, "fresh_process_runs": 6, "same_step_reruns": 200, "first_drawing_sampler_without_variables": 5, "__nontrivial__": 63},
-            "thorough": {"trace_pairs_compared": 6075, "evaluator_calls_hashed": 57264, "foreign_runs_interleaved": 3000, "seed_sensitivity_checked": 700, "fresh_process_runs": 75, "same_step_reruns": 4000, "__nontrivial__": 1245}}
+REQUIRED = {"quick": {"trace_pairs_compared": 295, "evaluator_calls_hashed": 2515, "foreign_runs_interleaved": 144, "seed_sensitivity_checked": 30, "fresh_process_runs": 6, "same_step_reruns": 200, "runs_with_a_foreign_run_inside": 70, "first_drawing_sampler_without_variables": 5, "__nontrivial__": 63},
+            "thorough": {"trace_pairs_compared": 6075, "evaluator_calls_hashed": 57264, "foreign_runs_interleaved": 3000, "seed_sensitivity_checked": 700, "fresh_process_runs": 75, "same_step_reruns": 4000, "runs_with_a_foreign_run_inside": 1400, "__nontrivial__": 1245}}
 N = {"quick": 120, "thorough": 2500}
 SAMPLERS = ["norm", "uniform", "truncnorm", "sobol", "halton", "lhs"]
 
@@ -96,7 +96,7 @@ def _hash_arrays(h, arrs):
             h.update(str(a.dtype).encode() + str(a.shape).encode() + a.tobytes())
 
 
-def run_trace(spec, *, reseed=False, pm=None, ctx_holder=None, repeat=None):
+def run_trace(spec, *, reseed=False, pm=None, ctx_holder=None, repeat=None, interleave=None):
     """Execute one optimizer step; return (digest, n_calls, perturbed rows digest, had_perturbations).
 
     repeat=k: the same step object of one plan is run k times with one validated configuration object (a restart loop);
@@ -107,7 +107,15 @@ def run_trace(spec, *, reseed=False, pm=None, ctx_holder=None, repeat=None):
     ev = ens.RecordingEvaluator(spec, reseed_global=reseed)
     pm = pm or ens.plugin_manager()
     h = hashlib.sha256()
-    ctx = OptimizerContext(evaluator=ev, plugin_manager=pm)
+    evaluator = ev
+    if interleave is not None:
+        # another optimization (same sampler methods and dimensions, other seed) is constructed and run to its end while this
+        # one is live: from inside its evaluator, before the 2nd and the 4th request are answered
+        def evaluator(variables, context):
+            if len(ev.calls) in (1, 3):
+                run_trace(interleave)
+            return ev(variables, context)
+    ctx = OptimizerContext(evaluator=evaluator, plugin_manager=pm)
 
     def on_results(event):
         for res in event.data["results"]:
@@ -205,6 +213,13 @@ def run_case(case, obs):
     obs.count("trace_pairs_compared", 2)
     if D1[0] != A[0] or D2[0] != A[0]:
         obs.violation("trace_depends_on_plugin_manager_reuse", first=D1[0] == A[0], second=D2[0] == A[0])
+        return
+    # G: a foreign run executed in the middle of this one
+    G = run_trace(spec, interleave=_foreign(spec, rng))
+    obs.count("trace_pairs_compared")
+    obs.count("runs_with_a_foreign_run_inside")
+    if G[0] != A[0]:
+        obs.violation("trace_depends_on_a_run_executed_during_this_one", samplers=spec["samplers"], calls=[A[1], G[1]])
         return
     # F: a restart loop - one step object of one plan run again and again with one validated configuration object
     for k, Fk in enumerate(run_trace(spec, repeat=3)):
